@@ -428,3 +428,162 @@ func TestWitnessSubjectsLive(t *testing.T) {
 		}
 	}
 }
+
+// TestWitnessSubjectsLiveTwoProducers: two goroutines emit into one subject while a slow observer is attached. For
+// every Next, the value has been handed to the observer when the call returns (no hidden queue, no hand-over to the
+// other producer), the values of each producer arrive in the order it sent them, and nothing is lost. Bounded (rounds,
+// values per producer); it only backs UNDECIDED units.
+func TestWitnessSubjectsLiveTwoProducers(t *testing.T) {
+	const rounds, per = 4, 40
+	type mk struct {
+		kind string
+		new  func() Subject[int]
+	}
+	for _, mkr := range []mk{
+		{"publish", func() Subject[int] { return NewPublishSubject[int]() }},
+		{"behavior", func() Subject[int] { return NewBehaviorSubject(-1) }},
+		{"replay", func() Subject[int] { return NewReplaySubject[int](4) }},
+		{"unicast", func() Subject[int] { return NewUnicastSubject[int](4) }},
+	} {
+		for round := 0; round < rounds; round++ {
+			s := mkr.new()
+			var mu sync.Mutex
+			delivered := map[int]bool{}
+			var got []int
+			sub := s.Subscribe(NewObserver(func(v int) {
+				time.Sleep(30 * time.Microsecond)
+				mu.Lock()
+				delivered[v] = true
+				got = append(got, v)
+				mu.Unlock()
+			}, func(error) {}, func() {}))
+			var early int32
+			var firstEarly int64 = -1
+			var wg sync.WaitGroup
+			for p := 0; p < 2; p++ {
+				wg.Add(1)
+				go func(p int) {
+					defer wg.Done()
+					for k := 0; k < per; k++ {
+						v := p*1000 + k
+						s.Next(v)
+						mu.Lock()
+						ok := delivered[v]
+						mu.Unlock()
+						if !ok && atomic.AddInt32(&early, 1) == 1 {
+							atomic.StoreInt64(&firstEarly, int64(v))
+						}
+					}
+				}(p)
+			}
+			wg.Wait()
+			s.Complete()
+			sub.Unsubscribe()
+			mu.Lock()
+			snap := append([]int{}, got...)
+			mu.Unlock()
+			bad := atomic.LoadInt32(&early) > 0
+			last := map[int]int{0: -1, 1: -1}
+			n := 0
+			for _, v := range snap {
+				if v < 0 {
+					continue // the initial value of the behavior subject
+				}
+				n++
+				if v%1000 <= last[v/1000] {
+					bad = true
+				}
+				last[v/1000] = v % 1000
+			}
+			if n != 2*per {
+				bad = true
+			}
+			if bad {
+				fmt.Printf("REPLAY-FAIL subject[%s] two producers (0..%d and 1000..%d) and a slow observer: %d Next call(s) returned before their value was delivered (first: %d); %d of %d values delivered\n", mkr.kind, per-1, 1000+per-1, atomic.LoadInt32(&early), atomic.LoadInt64(&firstEarly), n, 2*per)
+				t.Errorf("WITNESS kind=%s round=%d two producers: early returns %d, delivered %d of %d", mkr.kind, round, atomic.LoadInt32(&early), n, 2*per)
+				break
+			}
+		}
+	}
+}
+
+type wsCtxKey struct{}
+
+// TestWitnessSubjectsLiveTerminal: a terminal notification sent from another goroutine while a slow observer is still
+// receiving the backlog reaches that observer after the whole backlog, once, and with the context it was sent with.
+func TestWitnessSubjectsLiveTerminal(t *testing.T) {
+	const rounds, backlog = 6, 20
+	type mk struct {
+		kind string
+		new  func() Subject[int]
+	}
+	for _, mkr := range []mk{
+		{"unicast", func() Subject[int] { return NewUnicastSubject[int](UnicastSubjectUnlimitedBufferSize) }},
+		{"replay", func() Subject[int] { return NewReplaySubject[int](ReplaySubjectUnlimitedBufferSize) }},
+		{"behavior", func() Subject[int] { return NewBehaviorSubject(0) }},
+	} {
+		for _, term := range []string{"complete", "error"} {
+			for round := 0; round < rounds; round++ {
+				s := mkr.new()
+				for i := 1; i <= backlog; i++ {
+					s.Next(i)
+				}
+				cause := errors.New("witness")
+				var mu sync.Mutex
+				var trace []string
+				started := make(chan struct{})
+				var once sync.Once
+				var wg sync.WaitGroup
+				wg.Add(1)
+				go func() {
+					defer wg.Done()
+					<-started
+					ctx := context.WithValue(context.Background(), wsCtxKey{}, "mark")
+					if term == "complete" {
+						s.CompleteWithContext(ctx)
+					} else {
+						s.ErrorWithContext(ctx, cause)
+					}
+				}()
+				sub := s.SubscribeWithContext(context.Background(), NewObserverWithContext(func(ctx context.Context, v int) {
+					once.Do(func() { close(started) })
+					time.Sleep(200 * time.Microsecond)
+					mu.Lock()
+					trace = append(trace, fmt.Sprintf("N%d", v))
+					mu.Unlock()
+				}, func(ctx context.Context, err error) {
+					mu.Lock()
+					trace = append(trace, fmt.Sprintf("E(%v,same=%v)", ctx.Value(wsCtxKey{}), err == cause))
+					mu.Unlock()
+				}, func(ctx context.Context) {
+					mu.Lock()
+					trace = append(trace, fmt.Sprintf("C(%v)", ctx.Value(wsCtxKey{})))
+					mu.Unlock()
+				}))
+				wg.Wait()
+				sub.Unsubscribe()
+				mu.Lock()
+				snap := append([]string{}, trace...)
+				mu.Unlock()
+				var want []string
+				if mkr.kind == "behavior" {
+					want = append(want, fmt.Sprintf("N%d", backlog))
+				} else {
+					for i := 1; i <= backlog; i++ {
+						want = append(want, fmt.Sprintf("N%d", i))
+					}
+				}
+				if term == "complete" {
+					want = append(want, "C(mark)")
+				} else {
+					want = append(want, "E(mark,same=true)")
+				}
+				if fmt.Sprint(snap) != fmt.Sprint(want) {
+					fmt.Printf("REPLAY-FAIL subject[%s] backlog 1..%d, then %s with a context carrying a value from another goroutine during the replay to a slow observer: got %v, want %v\n", mkr.kind, backlog, term, snap, want)
+					t.Errorf("WITNESS kind=%s %s during the replay: got %v", mkr.kind, term, snap)
+					break
+				}
+			}
+		}
+	}
+}
